@@ -47,6 +47,8 @@ def spellings(a, b, period_ns):
         out.append(('mixed2', '[%s:%s]' % (lit(A, small[0]), lit(B, small[1])), None, p0, ()))
     for u in small[:2]:
         out.append(('end-only-' + u, '[%s,%s]' % (lit(A, u, False), lit(B, u)), None, p0, ()))
+        out.append(('begin-only-' + u, '[%s,%s]' % (lit(A, u), lit(B, u, False)), None, p0, ()))
+        out.append(('begin-only-%s-default-ns' % u, '[%s,%s]' % (lit(A, u), lit(B, u, False)), 'ns', p0, ()))
         out.append(('default-' + u, '[%s,%s]' % (lit(A, u, False), lit(B, u, False)), u, p0, ()))
     for per in per_variants[1:3]:
         u = small[0]
@@ -182,7 +184,10 @@ def obligations(tier, rng):
                      ('ms-explicit', '[%dms,%dms]' % (a * 1000, b * 1000), None, 1),
                      ('ms-default', '[%d,%d]' % (a * 1000, b * 1000), 'ms', 1000),
                      ('ms-default-s-explicit', '[%ds,%ds]' % (a, b), 'ms', 1000),
-                     ('mixed', '[%dms,%ds]' % (a * 1000, b), None, 1)]
+                     ('mixed', '[%dms,%ds]' % (a * 1000, b), None, 1),
+                     ('end-only-s', '[%d,%ds]' % (a, b), None, 1), ('ms-default-end-only-s', '[%d,%ds]' % (a, b), 'ms', 1000),
+                     ('ms-default-begin-only-s', '[%ds,%d]' % (a, b), 'ms', 1000),
+                     ('us-default-end-only-ms', '[%d,%dms]' % (a * 1000, b * 1000), 'us', 10 ** 6)]
             for name, itext, unit, scale in cases:
                 for mode in ('offline', 'online'):
                     if mode == 'online' and op in ('eventually_t', 'always_t', 'until_t'):
